@@ -36,10 +36,11 @@ type Profile struct {
 	InlineRhsOnly bool // tinyfo: a let's right-hand side must start on the let line
 	NoElif        bool
 	NoShadow      bool // no let that reuses the name of an outer variable
+	FnPayloads    bool // a union some of whose cases carry a function (matched, the payload applied in the arm)
 }
 
 var Full = Profile{Name: "full", Probes: true, Lambdas: true, LocalFuncs: true, StringMatch: true, Interp: true, MulDiv: true, Tuple3: true,
-	Generics: true, Buf: true, Dict: true, ReturnedFns: true, RecursiveTys: true, MaxUnits: 8, MaxDepth: 4, AnnotateAll: true}
+	Generics: true, Buf: true, Dict: true, ReturnedFns: true, FnPayloads: true, RecursiveTys: true, MaxUnits: 8, MaxDepth: 4, AnnotateAll: true}
 
 // FuncSig is a callable known to the generator.
 type FuncSig struct {
@@ -193,6 +194,9 @@ func (g *Gen) dataTypes(depth int) []*Type {
 		}
 	}
 	for _, u := range g.Unions {
+		if u.carriesFunc() {
+			continue // only ever a match target: never compared, printed, stored in other data
+		}
 		if len(u.TParams) == 0 {
 			ts = append(ts, TUnion(u.Name))
 			if depth > 0 {
@@ -283,6 +287,28 @@ func (g *Gen) genTypeDecls() []*TopItem {
 		if twinItem != nil {
 			items = append(items, twinItem) // after the original: its fields may mention the original
 		}
+	}
+	if g.P.FnPayloads && g.P.Lambdas && g.chance(1, 2, "fnPayloadUnion") {
+		// type OpN = | KopNa of int->int | KopNb of int | KopNc of string->int->string ...
+		label := g.fresh("type")
+		n := strings.TrimPrefix(label, "type")
+		fts := []*Type{TFunc([]*Type{TInt}, TInt), TFunc([]*Type{TInt}, TString), TFunc([]*Type{TString}, TInt),
+			TFunc([]*Type{TInt, TInt}, TInt), TFunc([]*Type{TString, TInt}, TString), TFunc([]*Type{TInt}, TBool)}
+		u := &UnionDecl{Name: "Op" + n}
+		nc := 2 + g.intn(3, "nFnCases")
+		for j := 0; j < nc; j++ {
+			c := UCase{Name: fmt.Sprintf("Kop%s%c", n, 'a'+j)}
+			if j == 0 || g.chance(2, 3, "caseCarriesFn") {
+				c.Payload = fts[g.intn(len(fts), "fnPayloadType")]
+			} else if g.chance(1, 2, "plainPayload") {
+				c.Payload = []*Type{TInt, TString}[g.intn(2, "plainPayloadType")]
+			}
+			u.Cases = append(u.Cases, c)
+		}
+		g.Unions = append(g.Unions, u)
+		g.typeLabel[u.Name] = label
+		g.label("type: union whose cases carry functions")
+		items = append(items, &TopItem{Types: []*TypeDecl{{Union: u}}, Label: label})
 	}
 	if g.P.Generics && g.chance(1, 2, "genericUnion") {
 		// type OptN<T> = | SomeN of T | NoneN
